@@ -78,6 +78,14 @@ var corpus = []struct {
 	{"prefilled-1024", []string{`Object.defineProperty(a,1023,{value:8,writable:false,enumerable:true,configurable:true})`, `a.length=1024`, `EXPORT(a)`}},
 	// toSorted(cmpNegZero)|dense|result(value)
 	{"sort-inputs", []string{`a.push(1)`, `a.push(2)`, `a.toSorted(cmpNegZero)`}},
+	// guards: sequences that pass on the unchanged tree but pin down seeded / formerly fixed defects
+	// (shrink, then a gapped write within the old capacity must leave holes)
+	{"shrink-regrow", []string{`a.splice(1,3)`, `a[4]=7`}},
+	{"shrink-regrow", []string{`a.splice(0,2)`, `Object.defineProperty(a,5,{get:G,set:S,enumerable:true,configurable:true})`}},
+	{"shrink-regrow", []string{`a.splice(-2)`, `a[5]=7`, `JSON.stringify(a)`}},
+	{"shrink-regrow", []string{`a.pop()`, `a.pop()`, `a[5]=7`}},
+	{"shrink-regrow", []string{`a.shift()`, `a.shift()`, `a[5]=7`}},
+	{"shrink-regrow", []string{`a.length=2`, `a[4]=7`}},
 }
 
 func corpusCheck() error {
